@@ -65,7 +65,7 @@ struct HIter {
 struct ApiRun {
     RunSpec spec; ApiCfg cfg; GenCfg gcfg;
     std::vector<Op> ops;
-    int spill_pages = 0; bool no_lookaside = false; EnvSeam env; int dump_every = 0;
+    int spill_pages = 0; bool no_lookaside = false; EnvSeam env; int dump_every = 0; long mutation_counter = 0;
     std::vector<RCif> cifs; std::vector<HCont> conts; std::vector<HLoop> loops; std::vector<HPacket> packets; std::vector<HIter> iters;
     uint64_t next_uid = 1;
     int cur_op = -1; int cur_kind = 0;
